@@ -1,6 +1,7 @@
 //! mlsv — property-based verification harness for awslabs/mls-rs (see /verif/DESIGN.md).
 mod alloc_track;
 mod engine;
+mod forge;
 mod history;
 mod mutate;
 mod providers;
